@@ -54,6 +54,9 @@ func (m *Machine) goArg(fr *frame, v value, depth int) any {
 		if x.t == nil {
 			return nil
 		}
+		if rt, ok := x.v.(rtype); ok {
+			return fmtStringer(typeString(rt.t))
+		}
 		if depth < 3 {
 			if f := m.hasMethod(x.t, "Error"); f != nil && f.Signature.Params().Len() == 0 {
 				s := m.call(fr, 0, f, []value{x.v})
